@@ -92,7 +92,11 @@ RateStep(s, e) ==
                 \* needed wait = next - now, next in [lo, hi], now in [t0, t1]
                 waitMin == s.lo - e.t1
                 waitMax == s.hi - e.t0 IN
-            IF e.res = "timeout"
+            IF e.res = "canceled"
+            THEN \* the caller's own context ended while it waited: it is not admitted (nothing to judge about
+                 \* the moment), but it has been charged like every other request
+                 {[s EXCEPT !.lo = lo2, !.hi = hi2]}
+            ELSE IF e.res = "timeout"
             THEN IF s.timeout > 0 /\ waitMax > s.timeout
                  THEN {[s EXCEPT !.lo = lo2, !.hi = hi2]} ELSE {}
             ELSE \* admitted: not before the bucket was free, and not if it certainly had to be refused
